@@ -139,22 +139,28 @@ func listenerCalls(p *load.Prog) map[string]map[string]bool {
 				continue
 			}
 			set := map[string]bool{}
-			ast.Inspect(fd.Body, func(n ast.Node) bool {
-				call, ok := n.(*ast.CallExpr)
-				if !ok {
-					return true
+			// the method and the plain helper functions of the package it delegates to (parse-tree accessors may be read there)
+			for _, hd := range p.WithHelpers(tr, fd, 2) {
+				if hd != fd && hd.Recv != nil && (strings.HasPrefix(hd.Name.Name, "Enter") || strings.HasPrefix(hd.Name.Name, "Exit")) {
+					continue // another callback: counted under its own name
 				}
-				sel, ok := call.Fun.(*ast.SelectorExpr)
-				if !ok {
-					return true
-				}
-				if s := tr.TypesInfo.Selections[sel]; s != nil {
-					if fn, ok := s.Obj().(*types.Func); ok && fn.Pkg() != nil && load.ShortPkg(fn.Pkg()) == "gen" {
-						set[fn.Name()] = true
+				ast.Inspect(hd.Body, func(n ast.Node) bool {
+					call, ok := n.(*ast.CallExpr)
+					if !ok {
+						return true
 					}
-				}
-				return true
-			})
+					sel, ok := call.Fun.(*ast.SelectorExpr)
+					if !ok {
+						return true
+					}
+					if s := tr.TypesInfo.Selections[sel]; s != nil {
+						if fn, ok := s.Obj().(*types.Func); ok && fn.Pkg() != nil && load.ShortPkg(fn.Pkg()) == "gen" {
+							set[fn.Name()] = true
+						}
+					}
+					return true
+				})
+			}
 			out[fd.Name.Name] = set
 		}
 	}
@@ -898,6 +904,27 @@ func Siblings(p *load.Prog, r *oblig.Report, rule string) {
 						}
 						if cl, ok := rs.Results[1].(*ast.CompositeLit); ok && variant == "Difference" {
 							order = childNames(cl)
+						}
+						continue
+					}
+					// a call that hands the operator constant and the children to a helper of the step
+					var hcall *ast.CallExpr
+					switch x := st.(type) {
+					case *ast.ExprStmt:
+						hcall, _ = x.X.(*ast.CallExpr)
+					case *ast.ReturnStmt:
+						if len(x.Results) == 1 {
+							hcall, _ = x.Results[0].(*ast.CallExpr)
+						}
+					}
+					if hcall != nil {
+						for _, arg := range hcall.Args {
+							if v, ok := pk.TypesInfo.Types[arg]; ok && v.Value != nil && v.Value.Kind() == constant.String && constant.StringVal(v.Value) != "" {
+								got[variant] = constant.StringVal(v.Value)
+							}
+							if cl, ok := arg.(*ast.CompositeLit); ok && variant == "Difference" {
+								order = childNames(cl)
+							}
 						}
 						continue
 					}
